@@ -79,6 +79,25 @@ def _strip_attrs(text: str):
     return text, cnt
 
 
+def _rewrite_maperr(text: str):
+    """R-maperr: `.map_err(<closure or fn>)` -> `.vmap_err()` (extension trait in common/base.rs: keeps
+    Ok values, maps every Err to an opaque error).  The error-mapping closure only builds the error
+    value.  Line count preserved."""
+    cnt = 0
+    pos = 0
+    while True:
+        m = mask(text)
+        mm = re.compile(r"\.map_err\s*\(").search(m, pos)
+        if not mm:
+            break
+        end = match_brace(m, mm.end() - 1) + 1
+        old = text[mm.start():end]
+        text = text[:mm.start()] + ".vmap_err()" + "\n" * old.count("\n") + text[end:]
+        pos = mm.start() + 5
+        cnt += 1
+    return text, cnt
+
+
 def _rewrite_logs(text: str):
     """R-log: statements `trace!/debug!/info!/warn!/error!(..);` are removed (line count preserved)."""
     cnt = 0
@@ -140,8 +159,10 @@ class Piece:
 
 def _apply_rewrites(text: str, rws: List[Rw], unit: str, log: list) -> str:
     for rw in rws:
-        if rw.kind in ("err", "log", "attrs"):
-            if rw.kind == "err":
+        if rw.kind in ("err", "log", "attrs", "maperr"):
+            if rw.kind == "maperr":
+                text, cnt = _rewrite_maperr(text)
+            elif rw.kind == "err":
                 text, cnt = _rewrite_errs(text, rw.rep or "verr()")
             elif rw.kind == "attrs":
                 text, cnt = _strip_attrs(text)
@@ -218,9 +239,13 @@ def extract_unit(u: Unit, rewrite_log: list) -> List[Piece]:
         text = _apply_rewrites(src[a:end], u.rewrites, u.name, rewrite_log)
         # restricted visibility on the item header becomes `pub` (single-module output)
         text = re.sub(r"^pub(\([^)]*\))?\s+", "", text)
+        if u.wrap_open:
+            pieces.append(Piece(u.wrap_open + "\n", "glue"))
         if u.attrs:
             pieces.append(Piece(u.attrs + "\n", "spec", label=lab + ":attrs"))
         pieces.append(Piece(text + "\n", "src", u.file, line_of(src, a)))
+        if u.wrap_close:
+            pieces.append(Piece(u.wrap_close + "\n", "glue"))
         return pieces
 
     if u.kind == "block":
